@@ -950,6 +950,7 @@ func runShard(t *testing.T, id int, quick, thorough int) {
 		for i := range h.names {
 			h.names[i] = fmt.Sprintf("t%du%d", id, i)
 		}
+		evid.Class("history")
 		h.run()
 	})
 	if n := sh.s.LogCount("panic"); n != 0 {
@@ -969,7 +970,7 @@ func shardBase() int {
 	return 10 * (i + 1)
 }
 
-func TestHistoriesA(t *testing.T) { t.Parallel(); runShard(t, shardBase()+1, 70, 700) }
-func TestHistoriesB(t *testing.T) { t.Parallel(); runShard(t, shardBase()+2, 70, 700) }
-func TestHistoriesC(t *testing.T) { t.Parallel(); runShard(t, shardBase()+3, 70, 700) }
-func TestHistoriesD(t *testing.T) { t.Parallel(); runShard(t, shardBase()+4, 70, 700) }
+func TestHistoriesA(t *testing.T) { t.Parallel(); runShard(t, shardBase()+1, 800, 10000) }
+func TestHistoriesB(t *testing.T) { t.Parallel(); runShard(t, shardBase()+2, 800, 10000) }
+func TestHistoriesC(t *testing.T) { t.Parallel(); runShard(t, shardBase()+3, 800, 10000) }
+func TestHistoriesD(t *testing.T) { t.Parallel(); runShard(t, shardBase()+4, 800, 10000) }
